@@ -57,11 +57,12 @@ def field_src(f: dict, tp: str, default: Optional[str]) -> str:
 def class_src(cfg: dict, o1: dict, o2: dict) -> str:
     f1, f2, g, link = cfg["f1"], cfg["f2"], cfg["g"], cfg["link"]
     deco = {"none": "", "upper": "@alias(str.upper)\n", "prefix": "@alias(PREFIX)\n"}
-    src = ["from dataclasses import dataclass, field", "from typing import Union, Optional",
+    src = ["from dataclasses import dataclass, field", "from typing import Generic, TypeVar, Union, Optional", "T = TypeVar('T')",
            "from apischema import alias, validator, ValidationError, dependent_required, Undefined, UndefinedType",
            "from apischema.metadata import flatten", "from apischema.objects import get_alias",
            "PREFIX = lambda s: 'p_' + s", "",
-           ("@dataclass\nclass InnerBase:" if cfg["struct"] == "inherit" else deco[cfg["ical"]] + "@dataclass\nclass Inner:"),
+           ("@dataclass\nclass InnerBase:" if cfg["struct"] == "inherit" else
+            deco[cfg["ical"]] + "@dataclass\nclass Inner" + ("(Generic[T]):" if cfg["struct"] == "generic" else ":")),
            field_src(f1, "int", None), field_src(f2, "int", None),
            field_src(o1, "Union[int, UndefinedType]", "Undefined"), field_src(o2, "Union[int, UndefinedType]", "Undefined"),
            f"    deps = dependent_required({{{o1['name']}: [{o2['name']}]}})",
@@ -73,7 +74,7 @@ def class_src(cfg: dict, o1: dict, o2: dict) -> str:
            f"            yield get_alias(self).{f1['name']}, 'v3'", ""]
     if cfg["struct"] == "inherit":
         src += [deco[cfg["ical"]] + "@dataclass", "class Inner(InnerBase):", "    pass", ""]
-    if cfg["struct"] not in ("plain", "inherit"):
+    if cfg["struct"] not in ("plain", "inherit", "generic"):
         lf = field_src(link, "Inner", None)
         if cfg["struct"] == "flat":
             lf = f'    {link["name"]}: Inner = field(metadata=flatten)'
@@ -141,8 +142,8 @@ def observe(rep: common.Report, case: dict) -> int:
     cfg, o1, o2 = case["cfg"], case["o1"], case["o2"]
     E = {r: ev(t) for r, t in case["expect"].items()}
     mod = build(cfg, o1, o2)
-    struct = "plain" if cfg["struct"] == "inherit" else cfg["struct"]
-    Root = mod.Inner if struct == "plain" else mod.Outer
+    struct = "plain" if cfg["struct"] in ("inherit", "generic") else cfg["struct"]
+    Root = mod.Inner[int] if cfg["struct"] == "generic" else mod.Inner if struct == "plain" else mod.Outer
     al = aliasers()
     kw = {} if cfg["call"] == "default" else {"aliaser": al[cfg["call"]]}
     apischema.settings.aliaser = al[cfg["glob"]]
@@ -259,7 +260,8 @@ def observe(rep: common.Report, case: dict) -> int:
             bad("depreq_" + view, inn["dependentRequired"], {E["o1"]: [E["o2"]]})
     # --- GraphQL
     names = [E[r] for r in E if r != "link" or struct == "nested"]
-    if all(GQL_NAME.match(x) for x in names) and obj is not None:
+    # (a specialised generic class has no default GraphQL type name: no GraphQL view of the "generic" structure)
+    if all(GQL_NAME.match(x) for x in names) and obj is not None and cfg["struct"] != "generic":
         n += graphql_views(rep, bad, mod, Root, cfg, E, struct, kw, obj, full, root,
                            {k: ev(t) for k, t in case["params"].items()})
     else:
